@@ -15,7 +15,7 @@ fn main() {
     install_quiet_panic_hook();
     watchdog("C26", args.pick(1500, 14400));
     let mut rep = Report::new("C26", "exploration", &args);
-    rep.rule = "programs with 2-3 contexts and 1-2 chains of 2-3 streams using the documented cross-context form (.context(a) .. .emit(context: b, ..) feeding a derived stream in b), pass-through or count-window consumers with uid fingerprints; 30-300 input events; channel capacity from {1,2,4,16,1000}; hook H7 injects seeded yields/sleeps at recv / forward / barrier. Non-trivial: run with >=20 cross-context events and >=1 forward that observed a full target queue; distinct by hash of the recorded order of (context, kind) trace entries (= distinct interleavings actually seen).".into();
+    rep.rule = "programs with 2-3 contexts and 1-2 chains of 2-3 streams using the documented cross-context form (.context(a) .. .emit(context: b, ..) feeding a derived stream in b; one producer in three uses a plain emit instead, so that the event must reach the other context through the orchestrator's routing table), pass-through, count-window or aliased-sequence (`S as a -> S as b`) consumers with uid fingerprints; 30-300 input events; channel capacity from {1,2,4,16,1000}; hook H7 injects seeded yields/sleeps at recv / forward / barrier. Non-trivial: run with >=20 cross-context events and >=1 forward that observed a full target queue; distinct by hash of the recorded order of (context, kind) trace entries (= distinct interleavings actually seen).".into();
     rep.assume("a forwarded event that is never received counts as lost only when the forward observed a full target queue (the drop mechanism); otherwise a missing receive after the quiescence bound is inconclusive");
     rep.assume("H7 is process-global: runs are serialised; the context threads themselves run truly in parallel");
     #[cfg(not(varpulis_verif))]
@@ -130,7 +130,7 @@ fn main() {
                         let (x, y) = (a.get(&bad).cloned().unwrap_or_default(), b.get(&bad).cloned().unwrap_or_default());
                         let how = if y.len() < x.len() { "fewer" } else if y.len() > x.len() { "more" } else { "different-or-reordered" };
                         let st = p.streams.iter().find(|s| s.name == bad);
-                        let kind = match st { Some(s) if s.window.is_some() => "window", Some(_) => "pass-through", None => "unknown" };
+                        let kind = match st { Some(s) if s.seq => "aliased-sequence", Some(s) if s.window.is_some() => "window", Some(_) => "pass-through", None => "unknown" };
                         let pos = match st { Some(s) if p.streams.iter().any(|q| q.name == s.src && q.ctx != s.ctx) => "cross-context-consumer", Some(s) if p.streams.iter().any(|q| q.name == s.src) => "same-context-consumer", _ => "base-consumer" };
                         rep.violation(&format!("output/{}/{}/{}", how, kind, pos), "outputs with contexts differ from the same program without contexts although no cross-context loss was recorded", wit(json!({"stream": bad, "without_contexts": x.len(), "with_contexts": y.len(), "first_without": x.iter().take(5).collect::<Vec<_>>(), "first_with": y.iter().take(5).collect::<Vec<_>>() })));
                     }
